@@ -586,7 +586,7 @@ class ThreadEngine(Engine):
             "operation is pre-empted at every trace-event index in turn (<=160 points) while the aggressor runs one whole "
             "operation in the gap. distinct = digest of (declarations, options, per-packet operation lists); non-trivial = at "
             "least two packets of one class were operated on and at least one parse and one pack happened")
-    assumptions = ["pre-emption granularity is a sys.settrace line event (quick) or opcode event (half of the thorough runs) in "
+    assumptions = ["pre-emption granularity is a sys.settrace line event or opcode event (half of the thorough runs, one duel sweep in four of the quick tier) in "
                    "bisturi, generated and declaration-module frames; C code (struct, re, bytes) is atomic, as under the GIL",
                    "the solo twin (same operations, alone, pristine definitions, fresh bisturi import) defines the expected "
                    "observations, so no second implementation of bisturi is embedded in the oracle",
@@ -606,7 +606,8 @@ class ThreadEngine(Engine):
         threading.stack_size(512 * 1024)
 
     def scenario(self, tier, idx):
-        return {"mode": "duel" if idx % 4 == 3 else "random", "opcode": bool(tier == "thorough" and idx % 2 == 1)}
+        # opcode granularity: half of the thorough runs, and one duel sweep in four of the quick tier
+        return {"mode": "duel" if idx % 4 == 3 else "random", "opcode": bool((tier == "thorough" and idx % 2 == 1) or idx % 16 == 15)}
 
     # ---------------------------------------------------------------------------------
     def _world_draws(self, ch, st):
